@@ -67,6 +67,11 @@ func readBack(twoTier bool, l1, l2 *model.MC, i int) (model.Reply, bool) {
 
 func ZZFault() {
 	nk := rt.Param("nk", 1)
+	if rt.Param("poolhavoc", 0) == 1 {
+		// C14 pool discipline: an object returned to a sync.Pool may be taken and overwritten by
+		// another connection at once, so its contents are arbitrary from then on
+		rt.PoolHavoc(true)
+	}
 	cfg := rt.Param("orca", -1)
 	if cfg < 0 {
 		cfg = rt.Choice("orca", rt.Param("norca", 3))
